@@ -160,7 +160,7 @@ func init() {
 							}
 						case "l.ServeAsync":
 							if len(call.Args) == 2 {
-								order = append(order, Src(call.Args[0])+" -> "+Src(call.Args[1]))
+								order = append(order, "("+LeanStr(Src(call.Args[0]))+", "+LeanStr(Src(call.Args[1]))+")")
 							}
 						}
 					}
@@ -170,7 +170,7 @@ func init() {
 			e.Unknown("Service.listen")
 		}
 		e.P("/-- service/service.go `listen`: the `l.ServeAsync(matcher, serve)` registrations in source order -/")
-		e.P("def muxRegistrations : List String := %s", LeanStrList(order))
+		e.P("def muxRegistrations : List (String × String) := [%s]", strings.Join(order, ", "))
 		e.P("/-- `l.SetReadTimeout(timeout)` is called before the registrations, with `timeout :=` this expression -/")
 		e.P("def sniffTimeoutSet : Bool := %s", LeanBool(timeoutSet))
 		e.P("def sniffTimeoutExpr : String := %s", LeanStr(timeoutExpr))
